@@ -417,9 +417,16 @@ def gen_rft(rng, n):
             good += fp.to_bytes(8, 'big')
         expect = 'rft %d ml=%s dfi=%s fs=%s di=%s fp=%s' % (moop, on(mlv), on(dv), '-' if fs is None else '%d/%d' % fs, on(di), on(fp))
 
-        def invoke(c, moop=moop, dfi=dfi):
+        use_wrapper = rng.random() < 0.5        # add_file, delete_file, ... : the wrapper each mode of operation has
+
+        def invoke(c, moop=moop, dfi=dfi, use_wrapper=use_wrapper):
             d = DataFormatIdentifier(*dfi) if dfi is not None else None
-            return c.request_file_transfer(moop, 'p.bin', d, 0x1234 if moop in (1, 3, 6) else None)
+            fsz = 0x1234 if moop in (1, 3, 6) else None
+            if use_wrapper:
+                w = {1: 'add_file', 2: 'delete_file', 3: 'replace_file', 4: 'read_file', 5: 'read_dir', 6: 'resume_file'}[moop]
+                args = {1: ('p.bin', d, fsz), 2: ('p.bin',), 3: ('p.bin', d, fsz), 4: ('p.bin', d), 5: ('p.bin',), 6: ('p.bin', d, fsz)}[moop]
+                return getattr(c, w)(*args)
+            return c.request_file_transfer(moop, 'p.bin', d, fsz)
 
         def dump(r):
             sd = r.service_data
@@ -473,7 +480,18 @@ def gen_auth(rng, n):
             sd = r.service_data
             fs = [(nm, getattr(sd, AUTH_ATTR[nm])) for nm in AUTH_RESP.get(sd.authentication_task_echo, [])]
             return 'auth %d %d %s' % (sd.authentication_task_echo, sd.return_value, ','.join('%s=%s' % (k, bh(v)) for k, v in fs if v is not None) if fs else '-')
-        out.append(DCase('authentication', (lambda c, task=task, kwargs=kwargs: c.authentication(task, **kwargs)), 'dec e=auth task=%d' % task, good, expect, dump,
+        AUTH_W = {0: 'deauthenticate', 1: 'verify_certificate_unidirectional', 2: 'verify_certificate_bidirectional', 3: 'proof_of_ownership', 4: 'transmit_certificate',
+                  5: 'request_challenge_for_authentication', 6: 'verify_proof_of_ownership_unidirectional', 7: 'verify_proof_of_ownership_bidirectional', 8: 'authentication_configuration'}
+        inv_ = (lambda c, task=task, kwargs=kwargs: c.authentication(task, **kwargs))
+        if rng.random() < 0.5:      # the wrapper each authentication task has (its parameters are a subset of those of authentication(), same names)
+            import inspect as _insp
+            from udsoncan.client import Client as _Client
+            sig_ = _insp.signature(getattr(_Client, AUTH_W[task]))
+            names_ = list(sig_.parameters)[1:]
+            required_ = [n_ for n_ in names_ if sig_.parameters[n_].default is _insp.Parameter.empty]
+            if set(kwargs) <= set(names_) and set(required_) <= set(kwargs):
+                inv_ = (lambda c, task=task, kwargs=kwargs, AUTH_W=AUTH_W: getattr(c, AUTH_W[task])(**kwargs))
+        out.append(DCase('authentication', inv_, 'dec e=auth task=%d' % task, good, expect, dump,
                          rid=0x69, echo_fields=[('authentication task', 0, 1)]))
     return out
 
@@ -742,7 +760,35 @@ def gen_dtc(rng, n, nrec_max=6):
         if dtcoff is not None:
             # the DTC number is not among the echoes the property lists; the client compares it for snapshots only
             echo.append(('dtc number (snapshot)' if dtcoff[1] else 'dtc number (extended data: not compared)', dtcoff[0], 3))
-        case = DCase('read_dtc_information', (lambda c, sf=sf, kwargs=kwargs: c.read_dtc_information(sf, **kwargs)), dline, good, expect,
+        # half of the calls go through the getter the library offers for this sub-function (its own parameter names: record_number, data_size), as keyword
+        # or positional arguments: a getter is a code path of its own between the caller's arguments and read_dtc_information
+        getter = [n_ for n_, (sf_, _) in enclib.DTC_WRAPPERS.items() if sf_ == sf]
+        via = None
+        if getter and rng.random() < 0.5:
+            import inspect as _insp
+            from udsoncan.client import Client as _Client
+            names_ = list(_insp.signature(getattr(_Client, getter[0])).parameters)[1:]
+            src_ = dict(kwargs)
+            gk = {}
+            ok_ = True
+            for pn in names_:
+                if pn in src_:
+                    gk[pn] = src_.pop(pn)
+                elif pn == 'record_number' and ('snapshot_record_number' in src_ or 'extended_data_record_number' in src_):
+                    gk[pn] = src_.pop('snapshot_record_number') if 'snapshot_record_number' in src_ else src_.pop('extended_data_record_number')
+                elif pn == 'data_size':
+                    if 'extended_data_size' in src_:
+                        gk[pn] = src_.pop('extended_data_size')
+                else:
+                    ok_ = False
+            if ok_ and not src_:
+                positional = rng.random() < 0.5 and list(gk) == names_[:len(gk)]
+                via = (getter[0], gk, positional)
+        if via is not None:
+            invoke_ = (lambda c, via=via: getattr(c, via[0])(*via[1].values())) if via[2] else (lambda c, via=via: getattr(c, via[0])(**via[1]))
+        else:
+            invoke_ = (lambda c, sf=sf, kwargs=kwargs: c.read_dtc_information(sf, **kwargs))
+        case = DCase(via[0] if via else 'read_dtc_information', invoke_, dline, good, expect,
                      lambda r: dump_dtc(r.service_data), cfgd, rid=0x59, echo_fields=echo)
         case.group, case.sf, case.padunit, case.tol, case.ign = g, sf, padunit, tol, ign
         case.padclass = None if g == 'count' else ('tol' if tol else 'notol')
